@@ -1,8 +1,13 @@
 #!/bin/bash
 # usage: with_patch.sh <patch.diff> <command...>   — applies the patch to /repo, runs the command, always reverts.
+# The evidence files are saved and restored around the run: committed evidence must come from the unchanged tree.
 set -u
 patch="$1"; shift
-git -C /repo apply "$patch" || { echo "with_patch: cannot apply $patch"; exit 3; }
+save=$(mktemp -d)
+cp -a /verif/evidence/. "$save"/ 2>/dev/null
+git -C /repo apply "$patch" || { echo "with_patch: cannot apply $patch"; rm -rf "$save"; exit 3; }
 "$@"; rc=$?
-git -C /repo checkout -- . 
+git -C /repo checkout -- .
+cp -a "$save"/. /verif/evidence/ 2>/dev/null
+rm -rf "$save"
 exit $rc
